@@ -19,24 +19,32 @@ import gen_kinds_c09 as G
 
 ID = 'C09'
 LEVEL = 'translation_validation'
-RULE = ('programs = generated C++ cases, one per (operation, request, kind assignment, mode, build); requests: fixed 40-request sample '
-        '(quick) / ~400 seeded requests (thorough) over the index functions of C01-C08 and a handful of views/evals; kind assignments: '
-        'every kind on the diagonal (all arguments in the same kind) plus seeded mixed assignments (quick), every pinned-supported kind '
-        'signature at least once (thorough); builds stl-gcc, stl-clang, nostl-gcc, nostl-clang; constexpr evaluation where every argument '
-        'kind is a literal type. A case is non-trivial when the request has >= 2 axes or is a refusal (nothing expected); distinct = '
-        'distinct (request, kind signature, build)')
+RULE = ('programs = generated C++ cases, one per (operation, request, kind assignment, mode, build); 19 index-level operations (C01-C08 '
+        'shape / index functions incl. slice shape) and 8 views / evaluations over 35 array kinds (nested std::array, raw, fixed / hybrid / '
+        'dynamic ndarray, the 15 shape-x-buffer ndarray_t kinds in both layouts); requests: fixed sample (quick) / ~500 seeded requests '
+        '(thorough) incl. refused ones; kind assignments per request and build: the diagonal (every kind for all arguments), every pair of '
+        'argument classes constant/clipped/fixed/bounded/dynamic for the first two list arguments, seeded mixed draws, and in thorough a '
+        'sweep that covers EVERY pinned-supported kind signature at least once; builds stl-gcc, stl-clang, nostl-gcc, nostl-clang; '
+        'constexpr evaluation (`constexpr auto r = f(args)`) where every argument kind is a literal type. A case is non-trivial when '
+        'the request has >= 2 axes or is a refusal; distinct = distinct (request, kind signature, mode, build)')
 EXHAUSTIVE = {'quick': False, 'thorough': False}
-ANCHORS = {'Driver.C09 k9_* reference ops (NumPy semantics, one function per operation)':
-           'nmtools::index::* under every meta::resolve_optype branch (constant / clipped / fixed / bounded / dynamic), array kinds of utility/cast.hpp'}
+ANCHORS = {'Driver.C09 k9_* / k9v_* reference ops (NmVerif.KindRefs: NumPy semantics, one function per operation)':
+           'nmtools::index::* under every meta::resolve_optype branch (constant / clipped / fixed / bounded / dynamic), view::transpose/reshape/tile/add/sum, '
+           'array::transpose/add/eval over the array kinds of utility/cast.hpp and both layouts',
+           'NmVerif.Kinds.BVec': 'utl::static_vector (utl/static_vector.hpp)', 'NmVerif.Kinds.Clipped': 'clipped_integer_t (def.hpp:55-132)'}
 MANIFEST = dict(
-    text='Translation validation: every operation is instantiated under the supported combinations of argument container kinds (constant tuple, clipped, std::array, raw array, static_vector, vector, run-time tuple, fixed/hybrid 1-d ndarray, utl::array/vector, boost; 20 array kinds x 2 layouts), in STL and NMTOOLS_DISABLE_STL builds with g++ and clang++, including constexpr evaluation, on a common request list; the normalised (has_value, list) of all of them is compared with one reference answer (Lean reference function + NumPy). Proof-level Lean lemmas for the container layer: a bounded vector refines a list while no capacity event occurs, a clipped integer is the identity inside its range and clamps outside, and the bounded / clipped result containers chosen by the metafunctions of compute_strides / shape_transpose / broadcast_shape never overflow or clamp.',
-    note='The universally quantified part over configurations is finite and enumerated (pinned list of supported signatures); over input values it is sampled. That the constant-index branch computes the same function (it calls the same constexpr function on to_value_v) is code structure validated by the matrix, not a theorem.',
+    text='Translation validation: every operation is instantiated under the supported combinations of argument container kinds (constant tuple, clipped, std::array, raw array, static_vector, vector, run-time tuple, fixed/hybrid 1-d ndarray, utl::array/vector, boost::array/static_vector; 35 array kinds incl. the 15 ndarray_t shape-x-buffer kinds in both layouts), in STL and NMTOOLS_DISABLE_STL builds with g++ and clang++, including constexpr evaluation, on a common request list; the normalised (has_value, shape, elements) of all of them is compared with ONE reference answer (Lean reference function written from the NumPy semantics + NumPy itself). Which combinations compile is pinned; a pinned combination that stops compiling is reported. Proof-level Lean lemmas for the container layer: a bounded vector refines a list for every operation sequence without capacity event, a clipped integer is the identity inside its range and clamps outside, and the bounded / clipped result containers chosen by the metafunctions of compute_strides / shape_transpose / broadcast_shape never overflow or clamp.',
+    note='The universally quantified part over configurations is finite and enumerated in the thorough tier (every pinned-supported signature at least once); over input values it is sampled (small extents). That the constant-index branch computes the same function (it calls the same constexpr function on to_value_v) is code structure validated by the matrix, not a theorem. Six genuine kind-dependences of the unchanged tree are listed as known findings. Not covered: maybe-wrapped argument kinds, boost small_vector, the index-map functions of C03/C04 (only their shape functions), constexpr evaluation of views.',
     technique='generated kind-matrix differential run against one Lean/NumPy reference + Lean 4 container refinement lemmas')
 ASSUMPTIONS = ['a kind signature that does not compile in the unchanged tree is an unsupported combination, not a violation (pinned in lib/kinds_supported_c09.json)',
-               'a failure type returned for compile-time-constant arguments (meta::is_fail_v) counts as the refusal `nothing`',
-               'input values are sampled; extents are small (<= 9 per axis for constant kinds)']
-PARTIAL = []
-
+               'a failure type returned for compile-time-constant arguments (meta::is_fail_v), or a compile error of a case with a constant argument, counts as the refusal `nothing`',
+               'the None shape (none_t) is the empty shape',
+               'input values are sampled; extents are small (<= 6 per axis); negative axes are not fed to shape_repeat / shape_concatenate (refused or out of bounds in EVERY kind alike: C04/C06 material)',
+               'clipped integers are given bounds with slack (value <= bound), which is the purpose of the type']
+PARTIAL = ['maybe-wrapped argument kinds (m_shape_a ...) are not in the matrix',
+           'views / evaluations: 8 operations; the second array operand of a binary operation ranges over 8 of the 35 array kinds',
+           'constexpr evaluation is compared at index level only',
+           'index maps (tile / repeat / roll / pad / slice index functions) are covered through the views only, not kind by kind']
 MAX_JOBS = min(6, int(os.environ.get('VERIF_JOBS', '6')))
 CASES_PER_TU = 220
 VIEW_WEIGHT = 6
@@ -496,7 +504,7 @@ def kf_remove_dims_runtime_keepdims(c):
     if r['op'] not in ('remove_dims', 'remove_dims_s') or r['argkind']['keepdims'] != 'rt':
         return False
     if r['args']['axis'] is None:
-        return r['args']['keepdims'] == 0
+        return True      # rank 0 / rank dim is decided from the type: dim-1 zeros (keepdims=false), None (keepdims=true)
     return r['args']['keepdims'] == 1 and r['argkind']['shape'] in (FIXED_LEN_KINDS | BOUNDED_LEN_KINDS)
 
 
@@ -515,15 +523,16 @@ def kf_reshape_clipped_bounds(c):
     BOUNDS of the clipped integers: a `-1` slot is clamped to its own bound, and a valid request whose bounds do not
     multiply to the same element count yields a failure type"""
     r = parse_req(c.req)
-    if r['op'] != 'shape_reshape':
+    if r['op'] not in ('shape_reshape', 'v_reshape'):
         return False
     if r['argkind']['newshape'] == 'cl' and any(d == -1 for d in r['args']['newshape']):
         return True
-    if 'cl' not in (r['argkind']['shape'], r['argkind']['newshape']):
+    lists = ('shape', 'newshape') if r['op'] == 'shape_reshape' else ('newshape',)
+    if not any(r['argkind'][an] == 'cl' for an in lists):
         return False
     # bounds not tight somewhere
     slack = False
-    for an in ('shape', 'newshape'):
+    for an in lists:
         if r['argkind'][an] == 'cl':
             slack |= any(hi != v for (lo, hi), v in zip(clipped_bounds(r, an), r['args'][an]))
     return slack
@@ -559,11 +568,23 @@ def kf_eval_tile_fixed_buffer(c):
         return False
     k = r['argkind']['x']
     k = k[:-4] if k.endswith('_col') else k
-    grow = any(x > 1 for x in r['args']['reps'])
-    return grow and k in ('fs_fb', 'fs_hb', 'hs_fb', 'hs_hb', 'ds_fb', 'ds_hb', 'ls_fb', 'ls_hb')
+    grow = any(x > 1 for x in r['args']['reps']) or len(r['args']['reps']) > len(r['args']['x'])
+    return grow and k in ('fs_fb', 'fs_hb', 'hs_fb', 'hs_hb', 'hs_db', 'ds_fb', 'ds_hb', 'ls_fb', 'ls_hb')
+
+
+def kf_repeat_clipped_repeats(c):
+    """shape_repeat with a constant shape, a constant axis and a tuple of CLIPPED repeats whose bounds are not tight: the
+    all-compile-time branch treats the clipped repeats as constants equal to their bounds"""
+    r = parse_req(c.req)
+    if r['op'] != 'shape_repeat_l' or r['argkind']['repeats'] != 'cl':
+        return False
+    if r['argkind']['shape'] != 'ct' or r['argkind']['axis'] not in ('ct', 'none'):
+        return False
+    return any(hi != v for (lo, hi), v in zip(clipped_bounds(r, 'repeats'), r['args']['repeats']))
 
 
 KNOWN_PREDICATES = {
+    'repeat_clipped_repeats': kf_repeat_clipped_repeats,
     'colmajor_clipped_shape': kf_colmajor_clipped_shape,
     'eval_tile_fixed_buffer': kf_eval_tile_fixed_buffer,
     'remove_dims_runtime_keepdims': kf_remove_dims_runtime_keepdims,
